@@ -236,6 +236,84 @@ fn honest_never_flagged(r: &Report) {
     }
 }
 
+/// (d) The legacy engine-inbox path: `dispatch_next_intent` puts the user handler and the system
+/// rule `sys/ack_pending` on the SAME event scope, i.e. into one work unit.  System privileges
+/// (instance-level ops) must stay per rewrite: every violator must still be flagged with the same
+/// kind and leave the state untouched, every honest program must commit, with and without an
+/// honest companion unit, on 1..2 workers.
+fn inbox_path(r: &Report) {
+    let u = universe();
+    let comps = honest_companions();
+    let cases: Vec<(usize, usize, usize)> = (0..violators().len()).flat_map(|vi| (0..=1).flat_map(move |h| (1..=2).map(move |w| (vi, h, w)))).collect();
+    let vs = violators();
+    cases.par_iter().for_each(|&(vi, h, workers)| {
+        let v = &vs[vi];
+        let mut pre = pre_chain();
+        let mut seq: Vec<Cand> = Vec::new();
+        if h == 1 {
+            let n = CARRIER0;
+            pre.nodes.insert((0, n), 2);
+            pre.atts.insert(RefSlot::Node(0, n), comps[0].carrier_att());
+            seq.push((RULE_A, 0u8, n));
+        }
+        r.eval(1);
+        let case = json!({"case": {"phase": "inbox", "violator": v.name, "program": format!("{:?}", v.program.steps), "omit_item": v.program.omit, "companions": h, "workers": workers}});
+        match rules::tick::run_inbox_tick(&pre, &v.program.to_bytes(), &seq, SchedulerKind::Radix, workers) {
+            Ok(_) => r.violation(&format!("undeclared-access-committed:inbox-dispatch(next to sys/ack_pending):{}", v.name), case),
+            Err((TickFailure::Setup(e), _, _)) => r.machinery_error(&format!("inbox phase setup: {e}")),
+            Err((fail, after, before)) => {
+                let ok_kind = match &fail {
+                    TickFailure::Violation { kind, with_panic, .. } => kind.starts_with(v.expect) && *with_panic == v.with_panic,
+                    TickFailure::Panic(_) => v.expect == "Panic",
+                    _ => false,
+                };
+                if !ok_kind {
+                    r.violation(
+                        &format!("wrong-failure-for-undeclared-access:inbox-dispatch:{}:{}", v.name, short(&fail)),
+                        json!({"case": case, "failure": format!("{fail:?}"), "expected": v.expect}),
+                    );
+                }
+                r.outcome(&format!("inbox:{}", short(&fail)));
+                match (after, before) {
+                    (Some(a), Some(b)) => {
+                        if format!("{a:?}") != format!("{b:?}") {
+                            r.violation(&format!("failed-tick-left-visible-effects:inbox-dispatch:{}", v.name), json!({"case": case}));
+                        }
+                    }
+                    _ => r.machinery_error("inbox phase: no engine state after failure"),
+                }
+                r.nontrivial(format!("inbox:{}:{h}:{workers}", v.name).as_bytes());
+            }
+        }
+        let _ = u;
+    });
+    // honest programs through the same path
+    let honest: Vec<Program> = rules::pool::menu().into_iter().chain(honest_companions()).collect();
+    for (i, p) in honest.iter().enumerate() {
+        let pre = pre_chain();
+        if !rules::ref_matches(p, &pre, 0) {
+            continue;
+        }
+        for workers in 1..=2 {
+            r.eval(1);
+            match rules::tick::run_inbox_tick(&pre, &p.to_bytes(), &[], SchedulerKind::Radix, workers) {
+                Ok(o) => {
+                    r.counter("inbox_honest_ticks_committed", 1);
+                    // both the handler and sys/ack_pending were applied
+                    if o.applied.iter().filter(|a| **a).count() >= 2 {
+                        r.counter("inbox_ticks_with_user_and_system_rewrite_applied", 1);
+                    }
+                }
+                Err((TickFailure::Setup(e), _, _)) => r.machinery_error(&format!("inbox honest setup: {e}")),
+                Err((f, _, _)) => r.violation(
+                    &format!("honest-rewrite-flagged:inbox-dispatch:{}", short(&f)),
+                    json!({"case": {"phase": "inbox-honest", "menu_index": i, "program": format!("{:?}", p.steps), "workers": workers}, "failure": format!("{f:?}")}),
+                ),
+            }
+        }
+    }
+}
+
 // ---------------------------------------------------------------------------------------------
 // (c) attribution completeness
 // ---------------------------------------------------------------------------------------------
@@ -448,9 +526,12 @@ fn main() {
         r.sample(json!({"violator": v.name, "program": format!("{:?}", v.program.steps), "omitted_item_index": v.program.omit, "expected": v.expect}));
     }
     honest_never_flagged(&r);
+    inbox_path(&r);
     attribution(&r);
 
     r.guard("honest_ticks_committed", r.counter_value("honest_ticks_committed") > 0);
+    r.guard("inbox_user_and_system_rewrite_in_one_tick", r.counter_value("inbox_ticks_with_user_and_system_rewrite_applied") > 0);
+    r.guard("inbox_instance_op_flagged", r.outcome_count("inbox:Violation:UnauthorizedInstanceOp") > 0);
     r.guard("violator_on_multiple_workers", r.counter_value("cases_with_violator_on_multiple_workers") > 0);
     r.guard("violator_at_every_rank_of_3", (0..3).all(|k| r.outcome_count(&format!("violator_rank={k}_of_3")) > 0));
     r.guard(">=6 distinct violation kinds observed", {
